@@ -68,6 +68,14 @@ CLAIMED['C17'] = ('TLA+ spec Params.tla (sixteen per-field checks in code order 
                   'ValueError exactly as the spec says.', 'Equal-ended ranges and int-for-float are left open (either outcome); bool / numpy '
                   'scalars outside the grid. ' + TRUST, 'DESIGN.md section 4 C17')
 
+CLAIMED['C15'] = ('TLA+ spec DataPanel.tla (Pivot/Means/Order/Shares/Reconcile/SetGeoIndex/Aggregate pipeline refining the declarative contract); '
+                  'frames, eligibility tables and geo-index orders enumerated/sampled inside TLA+ and replayed into TBRMMData under many presentations',
+                  'All frames over <=3 geos x <=3 dates with values 0..2 (hash-sampled residue class per seed in quick, all in thorough), tables over '
+                  'the seven row types in relation subset/equal/exceeding, all legal and illegal geo-index orders; rows, columns, cells, shares as '
+                  'exact rationals, assignable set, reconciliation outcome, index assignments and every subset aggregate compared.',
+                  'Tied means may come in any order; duplicate (geo,date) rows and tuple-typed geo indexes are outside the property. ' + TRUST,
+                  'DESIGN.md section 4 C15')
+
 PENDING_REASON = 'check not built yet in this round (planned, see DESIGN.md section 10); not claimed until it runs'
 
 
